@@ -46,6 +46,47 @@ CLAIMED = {
          "allowance, monotone, convex, marginal rate <= top rate; all 8 soli schedules monotone and <= rate*tax + 0.01); "
          "the merged raw pieces come from the Lean loader model, which is compared with the real loader on every run; float "
          "evaluation of the real evaluator is only explored."),
+ "C01": ("5/C01", "Lean 4 theorems on the abstract evaluation of the dependency graph (eval_respects: any relation respected by all node "
+         "operations and by the data is respected by every node; instances: row-wise operations and commutative-associative group "
+         "aggregations are equivariant under every row permutation; fg_id/pairId partition theorems from C12 are order independent) + "
+         "metamorphic search on the real system over adversarial row orders and index labellings, all nodes",
+         "Proof: Props/C01.lean (simulate_perm, simulate_perm_grouped, eval_respects for arbitrary systems, data, permutations) on the "
+         "abstract DAG model Core/Dag.lean; the node kinds' models (Agg, Groupings, VecDtype) are tied to the code by C11/C12/C03 "
+         "correspondences; the assembly of the real function set is explored, not modelled: partial there."),
+ "C02": ("5/C02", "Lean 4 theorems: simulate_union (row-wise and group-aggregation nodes whose id columns are not cut evaluate on A++B "
+         "restricted to A as on A), relabel_invariance under injective id relabellings, union_separable_grouped; metamorphic search on "
+         "the real system (A, B, A++B, B++A, interleavings, relabelled A; all nodes)",
+         "Proof: Props/C02.lean on the abstract DAG model for arbitrary systems and populations; ties as for C01; the derived-id "
+         "arithmetic (hh*100+flag, fg*100+k with k<100) is covered by C12 (wthh_no_collision, bg_nests_in_fg, bg_collision_at_100)."),
+ "C04": ("5/C04", "Lean 4 theorems: prune_sound, targets_indep, run_shape, extra_data_irrelevant on the abstract DAG model; search on "
+         "the real system: every node alone / in random target sets / with all nodes, noise columns, debug and minimal-specification options",
+         "Proof: Props/C04.lean for arbitrary systems, data, fuel and target lists; the real creation of automatic group sums from the "
+         "target list and the result assembly are explored on the real system (bit-identical comparison), not modelled: partial there."),
+ "C05": ("5/C05", "Lean 4 theorems: override_equiv (supplying a node's own value changes no other node), override_used (data wins over "
+         "the function of the same name), overridden_spec (the overlap that triggers the warning); search on the real system over the "
+         "nodes of the default graph incl. the warning and 'supplied column is used'",
+         "Proof: Props/C05.lean on the abstract DAG model; time-unit re-association through a supplied unit is covered by C13 "
+         "(conv_compose) over Q and explored with 1e-9 tolerance on floats."),
+ "C06": ("5/C06", "Lean 4 theorems: locality (systems agreeing outside U agree on every node that cannot reach U), replace_by_copy, "
+         "params_locality; search on the real system: per-group parameter perturbations, function replacements, identical copies, "
+         "bit-identical comparison outside the predicted cone",
+         "Proof: Props/C06.lean on the abstract DAG model for arbitrary systems; users(g) (rules with a <g>_params argument or rounding key "
+         "g) is computed from the real function objects in the search."),
+ "C07": ("5/C07", "Lean 4 theorems on the parameter-loader model: latest_spec, loadGroup_cut / env_cut (the environment depends on the date "
+         "only through finitely many entry-date cuts at the probes subYear^k d, jan1, and the year), functionsFor_spec / active_unique / "
+         "functionsFor_cut, conflictTest_iff_overlap; kernel-decided registry obligations (pairwise disjoint validity intervals for all "
+         "pairs, unique names, no parameter named datum, acyclic cross-file deviations); every calendar day of the window classified "
+         "by its cut key; per class the Lean loader model is compared with the real set_up_policy_environment",
+         "Proof: Props/C07.lean (generic, any raw YAML trees and registry) + Props/C07Inst.lean (decide +kernel on the registry regenerated "
+         "from the decorators); the loader model is tied to the code by differential runs at the first/last/random day of the classes; "
+         "calendar arithmetic is checked against datetime, general calendar lemmas only on a window (calendar_window_ok)."),
+ "C09": ("5/C09", "Lean 4 theorems: the rewriter model (mirrors vectorization.py incl. quirks) is sound on a typed fragment: tExpr_sound, "
+         "transform_sound (array result at row i = scalar result, or the array run is loud), rejection theorems, kernel-checked witnesses "
+         "of the unsound shapes; rewriter model compared term-by-term with the real _make_vectorizable_ast on all 397 rule functions and "
+         "random programs; array semantics compared with numpy; search: real array form vs scalar rule row by row, module-namespace snapshot",
+         "Proof: Props/C09.lean for every function accepted by the decidable predicate funOK (350 of the 397 rule functions; the others are "
+         "listed in the evidence and rest on the search); numpy itself is modelled (Core/ArrSem.lean), dtype promotion is not modelled; "
+         "known findings: the documented style contains shapes the rewriter translates unsoundly (recorded per rule)."),
 }
 
 NOT_YET = "check not built yet in this round (design in DESIGN.md §5); the property itself is in scope of the technique"
